@@ -42,6 +42,8 @@ type VerifEvent struct {
 	HasCtx  bool                 // the env has a cancellable context
 	Cases   []reflect.SelectCase // at a Step on OpSelect and at AfterSelect: the VM's own cases slice (aliased)
 	Native  *NativeFunction
+	Chan    reflect.Value // at a Step on OpSend, OpReceive, OpClose and on a range-over-channel receive: the channel
+	InRange bool          // the step is a receive performed by a range over a channel
 }
 
 var verifHook atomic.Pointer[func(*VerifEvent)]
@@ -71,11 +73,28 @@ func verifStep(vm *VM) {
 	if vm.fn != nil && int(vm.pc) < len(vm.fn.Body) {
 		in := vm.fn.Body[vm.pc]
 		ev.Op, ev.A, ev.B, ev.C = int(in.Op), in.A, in.B, in.C
-		if in.Op == OpSelect {
+		switch in.Op {
+		case OpSelect:
 			ev.Cases = vm.cases
+		case OpSend, -OpSend:
+			ev.Chan = vm.generalk(in.C, in.Op < 0)
+		case OpReceive, OpClose:
+			ev.Chan = vm.general(in.A)
 		}
 	}
 	(*h)(&ev)
+}
+
+// verifRangeRecv is called before every receive of a range over a channel,
+// which happens inside the OpRange instruction. It is reported as a step on a
+// pseudo OpReceive instruction.
+func verifRangeRecv(vm *VM, ch reflect.Value) {
+	h := verifHook.Load()
+	if h == nil {
+		return
+	}
+	(*h)(&VerifEvent{Kind: VerifStep, VM: vm, Fn: vm.fn, PC: vm.pc, Op: int(OpReceive), Chan: ch, InRange: true,
+		Done: atomic.LoadInt32(&vm.env.done) == 1, HasCtx: vm.env.doneChan != nil})
 }
 
 func verifBegin(vm *VM) {
